@@ -180,7 +180,7 @@ class World:
         hs.append((re.compile(r'^<&?(mut )?\w+ as (cnidarium::)?(StateRead|StateWrite)>::(\w+)'), self.h_l0))
         hs.append((re.compile(r'^(std::collections::)?HashSet(::<.*>)?::(contains|len|is_empty)$'), self.h_symset))
         hs.append((re.compile(r'to_ibc_prefixed$|^<.*IbcPrefixed as From<.*>>::from$|as Into<.*Cow<.*IbcPrefixed>>>::into$|^<Cow<.*IbcPrefixed> as From<.*>>::from$'), self.h_asset_conv))
-        hs.append((re.compile(r'VerificationKey::address_bytes$|as AddressBytes>::(address_bytes|display_address)$|^Address(::<.*>)?::bytes$|^TransactionSignerAddressBytes::(as_bytes|from)|as From<\[u8; 20\]>>::from$'), self.h_addr_conv))
+        hs.append((re.compile(r'VerificationKey::address_bytes$|as ([\w:]+::)?AddressBytes>::(address_bytes|display_address)$|^Address(::<.*>)?::bytes$|^TransactionSignerAddressBytes::(as_bytes|from)|as From<\[u8; 20\]>>::from$'), self.h_addr_conv))
         return hs
 
     def h_try_collect(self, ctx):
